@@ -353,14 +353,14 @@ ALL = ['C%02d' % i for i in range(1, 21)]
 EXTRA = {
     'C02': ('capacity provenance of the vote counter; provenance of the '
             'label list indexed by the ranking; None-test guard of the '
-            'correlation inheritance; zip lock-step; parameter forwarding along the call chain; sign analysis of the centroid denominators; settings not rebound; capacity of the aggregated vote totals',
+            'correlation inheritance; zip lock-step; parameter forwarding along the call chain; sign analysis of the centroid denominators; settings not rebound; capacity of the aggregated vote totals; polynomial normal form of the kernel inputs',
             'Also decides: the integer type of the vote counter is sized '
             'from the iteration count of the loop that increments it; the '
             'label list the ranking is translated with is the caller\'s or '
             'the one returned with the aggregated votes; the average '
             'correlation of a voted level is replaced only under an `is '
             'None` test; neighbour and correlation lists are zipped in '
-            'lock-step; zero norms are replaced on a test of the norm. Settings the property depends on are bound at every call whose callee would otherwise fall back to a default. The centroids voted on divide by a cell count floored at one. A run setting (iteration count, factor) is never replaced on a condition inside the pipeline. Aggregated vote totals kept in a chosen integer type are sized from a sum of the summands.'),
+            'lock-step; zero norms are replaced on a test of the norm. Settings the property depends on are bound at every call whose callee would otherwise fall back to a default. The centroids voted on divide by a cell count floored at one. A run setting (iteration count, factor) is never replaced on a condition inside the pipeline. Aggregated vote totals kept in a chosen integer type are sized from a sum of the summands. Kernel inputs are (data - row mean) / sqrt(sum((data - row mean)^2)), compared as polynomials (R-ARITH/pearson).'),
     'C04': ('shared random stream modelled as an order-sensitive '
             'accumulator; parameter forwarding along the call chain; census of worker-count special cases; kind agreement of chosen integer types in the worker code',
             'Also: a draw from a shared generator inside a loop whose '
@@ -379,23 +379,23 @@ EXTRA = {
             'applied in the index space they were computed in; pointer '
             'values are never scatter positions. Rows read in sorted order are put back with the matching permutation, once, and before every return. Settings the property depends on are bound at every call whose callee would otherwise fall back to a default. A reader answers from the requested row list itself, not only from its sorted / merged form. A re-used read buffer is consumed through the part just filled. CSR range readers return re-based pointers on every path and densify by column index. An array allocated with another array\'s element type is used as the same kind of sparse-matrix member (values vs positions).'),
     'C07': ('ordering-key provenance; column-gather detection on symbolic '
-            'terms; parameter forwarding along the call chain; dtype idioms of the normalisation; integer-width rule (shared with C16); column selection by name',
+            'terms; parameter forwarding along the call chain; dtype idioms of the normalisation; integer-width rule (shared with C16); column selection by name; rational normal form of the CPM conversion',
             'Also decides: no ordering step on the way to the per-parent '
             'index arrays of the marker cache depends on query positions; '
             'the array normalised in the chunk loops has not been cut by '
-            'column; the CPM divisor replaces zero totals only. Settings the property depends on are bound at every call whose callee would otherwise fall back to a default. (in particular the declared normalization). Normalised values are not cast to, or stored in place into, the element type of the raw counts. The integer type chosen by validation is judged from the np.round-ed extremes against both bounds of the type.'),
+            'column; the CPM divisor replaces zero totals only. Settings the property depends on are bound at every call whose callee would otherwise fall back to a default. (in particular the declared normalization). Normalised values are not cast to, or stored in place into, the element type of the raw counts. The integer type chosen by validation is judged from the np.round-ed extremes against both bounds of the type. convert_to_cpm returns 10^6 * data / row total on every path and both conversions take log2 of 1 + that (R-ARITH/cpm).'),
     'C08': ('iteration-order provenance of the in-place patching loop; index capacity typing; parameter forwarding along the call chain; guard census of empty-list rejections; column selection by name, in the order asked for; single key expression of the cache group read for a parent',
             'Also decides: parents are patched deepest first; the '
             'unknown-to-reference test is made on the unfiltered marker '
             'table. Gene positions stored with an explicitly chosen integer type are sized from the list they point into. Settings the property depends on are bound at every call whose callee would otherwise fall back to a default. A rejection for an empty marker list also looks at the number of children. Marker columns are taken from the query by a name-derived fancy index. The marker positions used for a parent are read, on every path, from the cache group keyed by that parent.'),
     'C09': ('loop-coverage must-pass, merge initial value, guard form, '
-            'exact tiling; key-space agreement of the dataset tables; parameter forwarding along the call chain; dtype idioms of the statistics; row-position provenance (rule of C10); threshold polynomials of the counting statistics; whole-package edit census of values handed out by tree accessors',
+            'exact tiling; key-space agreement of the dataset tables; parameter forwarding along the call chain; dtype idioms of the statistics; row-position provenance (rule of C10); threshold polynomials of the counting statistics; whole-package edit census of values handed out by tree accessors; rational normal form of moments and CPM',
             'Also decides: every chunk reaches _process_chunk; merged '
             'tables start from zeros; files are compared by gene sequence '
             'before column-wise addition; chunk windows tile the rows; '
             'per-file state of a worker is refreshed on a test of the '
             'file; files merged by position are compared on their '
-            'complete numbering tables. The ABC front end keys its dataset tables by the label as given. Settings the property depends on are bound at every call whose callee would otherwise fall back to a default. Sums and CPM denominators are not cast back to the element type of the raw counts. Rows a tree built from the reference file assigns to leaves are file positions. gt0 / gt1 / ge1 are column counts above 0, above 1 and above 1 - eps. No user of a tree accessor that hands out the tree\'s own container edits it in place.'),
+            'complete numbering tables. The ABC front end keys its dataset tables by the label as given. Settings the property depends on are bound at every call whose callee would otherwise fall back to a default. Sums and CPM denominators are not cast back to the element type of the raw counts. Rows a tree built from the reference file assigns to leaves are file positions. gt0 / gt1 / ge1 are column counts above 0, above 1 and above 1 - eps. No user of a tree accessor that hands out the tree\'s own container edits it in place. Mean and variance of a node are S / N and (Q - S^2/N)/(N - 1) of the summed statistics (R-ARITH/moments, rule of C11); counts per million are 10^6 * data / row total (R-ARITH/cpm, rule of C07).'),
     'C10': ('loop-coverage must-pass in the tree builder; must-derive of the leaf pairs; row-position provenance of the h5ad tree builder; unique-insert guard of the release reader; memo keys of module-level caches',
             'Also decides: the builder records every parent-child link of '
             'every row before validation (no early exit); tables filled '
@@ -422,9 +422,9 @@ EXTRA = {
             'parent table of that level; node tables are keyed by (level, '
             'label); zipped lists are in lock-step. Settings the property depends on are bound at every call whose callee would otherwise fall back to a default. A selection call receives parents listed from the very tree it is given. Per-level options written for the full taxonomy are not rejected for naming a dropped level. The HDF5 writer stores each per-level field as it finds it in the records and does not derive one from the others over the output hierarchy.'),
     'C18': ('sign analysis of cell-count denominators; merge rules shared '
-            'with C09; parameter forwarding along the call chain; gene-list rule shared with C11; tree-version provenance (rule of C01); node identity of the tree code (rule of C10)',
+            'with C09; parameter forwarding along the call chain; gene-list rule shared with C11; tree-version provenance (rule of C01); node identity of the tree code (rule of C10); rational normal form of the mean profile',
             'Also decides: no division by a possibly-zero cell count; '
-            'worker buffers are each added once. Settings the property depends on are bound at every call whose callee would otherwise fall back to a default. The gene list a later stage hands to the reference-marker stage becomes positions of the reference gene table. Levels not voted on are inferred from the tree as stored in the reference file. The tree code never files a node under its label alone.'),
+            'worker buffers are each added once. Settings the property depends on are bound at every call whose callee would otherwise fall back to a default. The gene list a later stage hands to the reference-marker stage becomes positions of the reference gene table. Levels not voted on are inferred from the tree as stored in the reference file. The tree code never files a node under its label alone. The mean profile of a node is S / N of the summed statistics (R-ARITH/moments, rule of C11).'),
     'C19': ('library-level freshness of listed directories and scratch '
             'file names; parameter forwarding along the call chain; existence-test order of the statistics-file search; creating write among the writes of an output; finaliser must-pass; must-pass of stale-output removal',
             'Also decides, per function: a listed directory was created '
@@ -445,13 +445,13 @@ EXTRA = {
             'Between chunk arrival and kernel the query matrix is never reduced along the cell axis.'),
     'C11': ('loop coverage of the marker workers; data-slice provenance of '
             'the vectors entering the Holm correction; sign analysis of '
-            'chunk extents; contiguity idiom',
+            'chunk extents; contiguity idiom; rational normal form of mean and variance',
             'Also decides: both marker workers write an entry for every '
             'pair index of their run; the clusters\' full mean / variance '
             'vectors enter the t-test and the Holm correction whatever the '
             'gene list; the gene list is applied whenever one is given; '
             'marker and mask files can be written when a direction has no '
-            'entry and for a chunk of a single pair (findings F9, F10).'),
+            'entry and for a chunk of a single pair (findings F9, F10). Mean and variance of a node are S / N and (Q - S^2/N)/(N - 1) of the statistics summed over its leaves, compared as rational functions (R-ARITH/moments).'),
     'C12': ('provenance of the pair indices reported to the utility update',
             'Also decides: desperate pairs and filled slots are addressed '
             'by the pair\'s index in the marker table '
